@@ -36,8 +36,8 @@ class Ref:
                     self.fsm_state[st[1]["id"]] = st[1]["init"] if st[1]["init"] is not None else st[1]["states"][0][0]
         self.doms = {d["name"]: d for d in prog["domains"]}
         self.rst = {d["name"]: 0 for d in prog["domains"]}
-        self.prints = []        # messages emitted by the last edge() call: list of (module index, text)
-        self.failed_assert = None
+        self.prints = []        # messages emitted by the last edge() call: list of (module index, domain, text)
+        self.failed = []        # assertions that failed at the last edge() call: (module index, domain, kind, message|None)
         self.settle()
 
     def _flatten(self, m, chain):
@@ -218,11 +218,11 @@ class Ref:
                     fsm_next[st[1]] = st[3]
             elif k == "print":
                 if st[1] == dom and dom != "comb":
-                    self.prints.append((mi, self.format(st[2])))
+                    self.prints.append((mi, dom, self.format(st[2]) + "\n"))     # Print(...) ends with a newline, like print()
             elif k == "assert":
                 if st[1] == dom and dom != "comb":
-                    if self.ev(st[2]) == 0 and self.failed_assert is None:
-                        self.failed_assert = (mi, st[4], self.format(st[3]) if st[3] is not None else None)
+                    if self.ev(st[2]) == 0:
+                        self.failed.append((mi, dom, st[4], self.format(st[3]) if st[3] is not None else None))
             else:
                 raise AssertionError(k)
 
@@ -235,15 +235,15 @@ class Ref:
                 expr, spec = ch
                 v = self.ev(expr)
                 if spec.endswith("s"):
-                    w, _ = self.shape(expr)
+                    # a byte string, least significant byte first; the generator keeps bytes ASCII and non-NUL except for
+                    # NUL padding above the text, which is not part of the string
                     rawv = self.raw(expr)
                     bs = []
                     while rawv:
-                        if rawv & 0xff:
-                            bs.append(rawv & 0xff)
+                        bs.append(rawv & 0xff)
                         rawv >>= 8
-                    text = bytes(bs).decode("utf-8", errors="replace") if False else "".join(chr(b) for b in bs)
-                    out.append(("{:" + spec[:-1] + "s}").format(text) if spec[:-1] else text)
+                    text = "".join(chr(b) for b in bs)
+                    out.append(("{:" + spec[:-1] + "}").format(text))
                 else:
                     out.append(("{:" + spec + "}").format(v))
         return "".join(out)
@@ -325,6 +325,7 @@ class Ref:
     def edge(self, active):
         """Active clock edges of the domains in `active`, in the same instant.  All reads use pre-edge values."""
         self.prints = []
+        self.failed = []
         updates = []
         fsm_updates = {}
         for mi, (m, chain) in enumerate(self.mods):
@@ -337,7 +338,7 @@ class Ref:
                 nxt = {}
                 fsm_next = {}
                 saved_prints = len(self.prints)
-                saved_assert = self.failed_assert
+                saved_failed = len(self.failed)
                 self.run_block(m["stmts"], od, nxt, mi, fsm_next)
                 # inserted controls, inside-out
                 frozen = False
@@ -348,7 +349,7 @@ class Ref:
                 # "freezes every state update"); an inserted reset does not silence them.
                 if frozen:
                     del self.prints[saved_prints:]
-                    self.failed_assert = saved_assert
+                    del self.failed[saved_failed:]
                 for si, mask in self.owned(mi, od).items():
                     old = self.val[si] & mask
                     v, am = nxt.get(si, [0, 0])
